@@ -41,6 +41,7 @@ inductive Ev where
   | txRelease        -- sendable_frame.rs release_sending_claim cas Sending → Sendable (by tx)
   | rxClaim          -- mod.rs claim_receiving         cas  Sent → RxBusy
   | rxDone           -- receiving_frame.rs mark_received cas RxBusy → RxDone   (by rx)
+  | rxUnclaim        -- receiving_frame.rs release_receiving_claim cas RxBusy → Sent (by rx: wrong frame claimed)
   | rxGiveUp         -- receive_frame returns an error after the claim: the ReceivingFrame is dropped (no status access)
   | pollTake         -- receiving_frame.rs poll        cas  RxDone → RxProcessing (by fut)
   | retry            -- receiving_frame.rs poll        cas  Sent → Sendable    (by fut)
@@ -50,7 +51,7 @@ inductive Ev where
 
 def Ev.all : List Ev :=
   [.claimCreated, .markSendable, .dropCreated, .txClaim, .txSent, .txRelease, .rxClaim, .rxDone,
-   .rxGiveUp, .pollTake, .retry, .abandon, .readerDrop]
+   .rxUnclaim, .rxGiveUp, .pollTake, .retry, .abandon, .readerDrop]
 
 /-- (function id, 0 = cas / 1 = store, from (255 = any), to) of the site an event stands for, in the
     numbering of `Gen.transitionSitesN` (`rxGiveUp` touches no status). -/
@@ -63,6 +64,7 @@ def Ev.site : Ev → Option (Nat × Nat × Nat × Nat)
   | .txRelease => some (6, 0, 3, 2)
   | .rxClaim => some (7, 0, 4, 5)
   | .rxDone => some (8, 0, 5, 6)
+  | .rxUnclaim => some (13, 0, 5, 4)
   | .rxGiveUp => none
   | .pollTake => some (9, 0, 6, 7)
   | .retry => some (9, 0, 4, 2)
@@ -97,6 +99,9 @@ def step (x : LSlot) : Ev → Option LSlot
   | .rxDone =>
     if x.tok.rx = 0 then none else
     some { (cas x .rxBusy .rxDone).1 with tok := { x.tok with rx := x.tok.rx - 1 } }
+  | .rxUnclaim =>
+    if x.tok.rx = 0 then none else
+    some { (cas x .rxBusy .sent).1 with tok := { x.tok with rx := x.tok.rx - 1 } }
   | .rxGiveUp =>
     if x.tok.rx = 0 then none else some { x with tok := { x.tok with rx := x.tok.rx - 1 } }
   | .pollTake =>
@@ -142,7 +147,7 @@ def run (x : LSlot) (evs : List Ev) : LSlot := evs.foldl (fun x e => (step x e).
 def edge : St → St → Bool
   | .none, .created | .created, .sendable | .created, .none
   | .sendable, .sending | .sending, .sent | .sending, .sendable
-  | .sent, .rxBusy | .rxBusy, .rxDone | .rxDone, .rxProcessing | .rxProcessing, .none
+  | .sent, .rxBusy | .rxBusy, .rxDone | .rxBusy, .sent | .rxDone, .rxProcessing | .rxProcessing, .none
   | .sent, .sendable => true
   -- release by the owner (deadline / drop) from the waiting states
   | .sendable, .none | .sent, .none | .rxDone, .none | .rxBusy, .none => true
